@@ -105,6 +105,8 @@ type Feature struct {
 	// Nest: every message and enum of the feature is declared INSIDE a holder message, after a map
 	// field of the holder (so the holder's synthetic map-entry type precedes them among its nested types).
 	Nest bool
+	// NestEmpty (with Nest): the holder declares NO fields of its own (a pure namespace message)
+	NestEmpty bool
 }
 
 // FeaturesNested returns the features declared as nested types of a holder message that starts with
@@ -119,6 +121,18 @@ func FeaturesNested(all bool, seed int) []Feature {
 		}
 		f.Nest = true
 		f.ID += "/nested-after-map"
+		out = append(out, f)
+	}
+	// the same, inside a holder that declares no fields at all (`message Ledger { message Balance {...} }`):
+	// one feature per annotation value (the other one of the pair when sampled)
+	seen = map[string]int{}
+	for _, f := range Features() {
+		seen[f.Ann]++
+		if seen[f.Ann] != 2-seed%2 && !(all && seen[f.Ann] == 1) {
+			continue
+		}
+		f.Nest, f.NestEmpty = true, true
+		f.ID += "/nested-in-fieldless-holder"
 		out = append(out, f)
 	}
 	return out
